@@ -68,7 +68,9 @@ def build(stage, n, buf, sd, extra):
         np.random.seed(sd)
         return base.tile(extra, shuffle=True), n * extra
     if stage == 'choice':
-        return base.random_choice(extra, replace=False, rng_state=rng), extra
+        # "without replacement" as callers spell it: False, 0, or a numpy bool from a comparison
+        flag = [False, 0, np.False_, np.bool_(0)][sd % 4]
+        return base.random_choice(extra, replace=flag, rng_state=rng), extra
     raise ValueError(stage)
 
 
@@ -128,6 +130,9 @@ def check_inflight(case):
     elif pk == 'shuffle_once':
         parent = base.shuffle(False, rng=np.random.RandomState(sd + 2))
         sel = list(parent)
+    elif pk == 'reshuffle':
+        parent = base.shuffle(True, rng=np.random.RandomState(sd + 3))  # order differs per pass: multisets compared
+        sel = list(range(n))
     elif pk == 'shard':
         parent = base.shard(2, 1) if n >= 2 else base
         sel = list(parent)
@@ -140,6 +145,14 @@ def check_inflight(case):
     for _ in range(min(j, len(sel))):
         got.append(next(it))
     derived = []
+    derive_list = case['derive']
+    if pk == 'reshuffle':
+        # a reshuffled dataset is not indexable: only what can be derived from it
+        # (one kind per case, so that the signature names the derivation that was in play)
+        derive_list = ([d for d in derive_list if d in ('copy', 'copy_frozen')] or ['copy'])[:1]
+    else:
+        derive_list = [d for d in derive_list if d != 'copy_frozen' or True]
+    case = dict(case, derive=derive_list)
     for d in case['derive']:
         if d == 'shuffle_once':
             ds = parent.shuffle(False, rng=rng)
@@ -148,6 +161,10 @@ def check_inflight(case):
             ds = parent.tile(2, shuffle=True)
         elif d == 'reshuffle':
             ds = parent.shuffle(True, rng=rng)
+        elif d == 'copy':
+            ds = parent.copy()
+        elif d == 'copy_frozen':
+            ds = parent.copy(freeze=True)
         else:
             ds = parent.random_choice(len(sel), replace=False, rng_state=rng)
         out = list(ds)
@@ -156,6 +173,14 @@ def check_inflight(case):
             raise Violation(f'not-a-permutation|derived-{d}', f'{case}\nderived {d} yielded {out}; the selection is {sel}')
         derived.append(ds)
     got += list(it)
+    if pk == 'reshuffle':
+        if sorted(got) != sel:
+            raise Violation('inflight-iteration-disturbed|' + pk + '+' + case['derive'][0],
+                            f'{case}\nthe pass over a reshuffled dataset that was in flight while {case["derive"]} '
+                            f'were derived from it yielded {got}')
+        if sorted(parent) != sel:
+            raise Violation('parent-changed-by-derivation|' + pk, f'{case}\nnext pass is not a permutation')
+        return 1 if 0 < j < len(sel) else 0
     if got != sel:
         raise Violation('inflight-iteration-disturbed|' + pk,
                         f'{case}\nthe iteration over the selection {sel} that was in flight while {case["derive"]} '
@@ -287,8 +312,10 @@ def st_case(draw):
     n = draw(st.integers(0, 9))
     if stage == 'inflight':
         return {'stage': 'inflight', 'n': n, 'seed': draw(st.integers(0, 10000)), 'j': draw(st.integers(0, n)),
-                'parent': draw(st.sampled_from(['npsel', 'npsel', 'shuffle_once', 'shard', 'slice'])),
-                'derive': draw(st.lists(st.sampled_from(['shuffle_once', 'tile_shuffle', 'reshuffle', 'choice']),
+                'parent': draw(st.sampled_from(['npsel', 'npsel', 'shuffle_once', 'shard', 'slice', 'reshuffle',
+                                                'reshuffle'])),
+                'derive': draw(st.lists(st.sampled_from(['shuffle_once', 'tile_shuffle', 'reshuffle', 'choice', 'copy',
+                                                         'copy_frozen']),
                                         min_size=1, max_size=3))}
     case = {'stage': stage, 'n': n, 'seed': draw(st.integers(0, 10000))}
     if stage in ('local', 'local_copy', 'local_items'):
